@@ -239,3 +239,18 @@ def deref_writes(body):
                 tgt += '.' + p['f']
         out.append((s, tgt, written_value(body, s)))
     return out
+
+
+def user_closures(P, body):
+    """Closures of `body` constructed outside logging-macro expansions."""
+    ids = []
+    for blk in body.blocks:
+        if blk['cleanup']:
+            continue
+        for st in blk['stmts']:
+            if st['k'] == 'assign' and st['rv']['k'] == 'agg' and st['rv'].get('ak') in ('closure', 'coroutine'):
+                mac = (st.get('mac') or '').strip(':').split('::')[0]
+                if mac in ('tracing', 'tracing_core', 'log'):
+                    continue
+                ids.append(st['rv']['id'])
+    return [P.bodies[i] for i in ids if i in P.bodies]
